@@ -15,7 +15,7 @@ ALL_NAMES = ['A', 'B', 'C', 'D', 'Tz', 'D3', 'G', 'Pr', 'P', 'Pk', 'Pw', 'Mv', '
              'TzI', 'GT', 'CT', 'PrT', 'PT', 'PkT', 'PwT', 'MvT', 'RsT', 'RvT', 'BdT', 'R1T', 'R2T', 'R3T',
              'R1iT', 'R1vT', 'PlT', 'I2v', 'I3v', 'Iqu', 'Im', 'H2', 'Hh', 'H3', 'Hq', 'Hm', 'H6',
              'Dl', 'DlI', 'Prl', 'PrlT', 'BDl', 'BDi', 'BRl', 'BCl', 'Il', 'Hl', 'Mc', 'McT', 'Mn',
-             'Mp', 'Mq', 'MpT', 'Ma', 'Mb', 'MaT']
+             'Mp', 'Mq', 'MpT', 'Ma', 'Mb', 'MaT', 'Ob', 'ObT']
 
 # a smaller alphabet for longer chains: one representative per pattern of C07 plus contexts
 CORE_NAMES = ['A', 'AI', 'D', 'DI', 'H2', 'Hh', 'I2v', 'G', 'GT', 'Pr', 'PrT', 'P', 'PT', 'Pk', 'PkT', 'Tz', 'H3',
